@@ -87,7 +87,8 @@ async def query_request(request: Request) -> JSONResponse:
                 "data": {
                     "rowtype": rowtype,
                     "rowsetBase64": rowset_b64,
-                    "total": 1,
+                    # the connector reports this as cursor.rowcount
+                    "total": cur.rowcount,
                     "queryResultFormat": "arrow",
                 },
                 "success": True,
